@@ -43,10 +43,14 @@ Theorem C12_stale_recovered_repaired :
   go_run 40 w_stale_recovered = Some (OPanic [(5, false, Some 4)]%N, [ERecover (Some 2%N)]).
 Proof. exact stale_recovered_repaired. Qed.
 
-Theorem C12_refuted_dropped_panic :
-  vm_run 60 w_dropped_panic = Some (OPanic [(3, false, Some 13)]%N, [ERecover (Some 4%N)]) /\
+(* repaired (fix cda9c95): an aborted panic stays in the chain until the panic
+   that aborted it is recovered, and a recovery removes the recovered panic and
+   the aborted ones after it only; the former witness of
+   nested-recover-drops-active-panic now agrees with Go *)
+Theorem C12_dropped_panic_repaired :
+  vm_run 60 w_dropped_panic = Some (OPanic [(1, false, Some 11); (3, false, Some 13)]%N, [ERecover (Some 4%N)]) /\
   go_run 60 w_dropped_panic = Some (OPanic [(1, false, Some 11); (3, false, Some 13)]%N, [ERecover (Some 4%N)]).
-Proof. exact dropped_panic_witness. Qed.
+Proof. exact dropped_panic_repaired. Qed.
 
 Theorem C12_refuted_callback_panic :
   vm_run 40 w_callback_panic = Some (OCbPanic [(7, false)]%N, []) /\
@@ -132,7 +136,7 @@ Theorem C12_panic_position :
   forall s f ins v,
   smode s = MExec -> sfn s = Some f -> fetch f (spc s) = Some ins -> panics_with ins v ->
   (exists s', step s = Next s' /\
-     schain s' = mkprec v false (debug_line f (spc s)) (sraised s) :: schain s) \/
+     schain s' = mkprec v false false (debug_line f (spc s)) (sraised s) :: schain s) \/
   (exists tr, step s = Fin (OPanic ((v, false, debug_line f (spc s)) :: chain_view (schain s))) tr) \/
   (exists tr, souter s <> [] /\ step s = Fin (OCbPanic ((v, false) :: cb_view (schain s))) tr).
 Proof. exact panic_position. Qed.
